@@ -111,3 +111,9 @@ def param_of_type(body, prefix, exact=None):
     rules identify the parameters of private functions by type, so that reordering a private signature is not an alarm."""
     hits = [q for q in range(1, body.arg_count + 1) if body.locals[q]["ty"]["s"].startswith(prefix) and (exact is None or body.locals[q]["ty"]["s"] == exact)]
     return hits[0] if len(hits) == 1 else None
+
+
+def param_named(body, name, type_prefix=None):
+    """1-based position of the parameter called `name` (optionally with a type starting with type_prefix), or None"""
+    hits = [q for q in range(1, body.arg_count + 1) if body.locals[q].get("name") == name and (type_prefix is None or body.locals[q]["ty"]["s"].startswith(type_prefix))]
+    return hits[0] if len(hits) == 1 else None
